@@ -1501,6 +1501,14 @@ func (c *Cluster) loadSegmentBatches(pd *partData, fsys fs, pdir string, base in
 		idxOff := batchIdx * indexEntrySize
 		if idxOff+indexEntrySize <= len(idxRaw) {
 			epoch, maxEarlierTS, inTx, _ = decodeIndexEntry(idxRaw[idxOff : idxOff+indexEntrySize])
+			if _, _, _, ok := decodeIndexEntry(idxRaw[idxOff : idxOff+indexEntrySize]); !ok && idxOff+indexEntrySize == len(idxRaw) {
+				// The last index entry has its full length but fails its
+				// checksum: a torn index write whose size update reached
+				// the disk while its content did not (the lost tail reads
+				// back as zeros). Same partial write as a short entry
+				// below; the batch was never acknowledged.
+				break
+			}
 		} else if idxErr == nil {
 			// The index entry is written and synced after the batch, and
 			// a produce is only acknowledged after both: a trailing batch
